@@ -78,6 +78,15 @@ func dispatchSink(kind int, worker uint64, value uint64) {
 	}
 }
 
+// tracedMineV2 is tracedMine for v2 with an exact 64-bit target (float64 cannot carry every uint64).
+func tracedMineV2(workers int, data []byte, target uint64, cancelAfter time.Duration) (string, string, int, time.Duration) {
+	v2Target = target
+	defer func() { v2Target = 0 }()
+	return tracedMine("v2exact", workers, data, 0, cancelAfter, true)
+}
+
+var v2Target uint64
+
 func init() {
 	pow.VerifSink = dispatchSink
 	powv2.VerifSink = dispatchSink
@@ -114,11 +123,25 @@ func tracedMine(ver string, workers int, data []byte, target float64, cancelAfte
 	}
 	var nonce uint64
 	var err error
+	tdesc := fmt.Sprint(target)
+	if ver == "v2exact" {
+		tdesc = fmt.Sprint(v2Target)
+	}
+	pending(fmt.Sprintf("Mine version=%s workers=%d data=%x target=%s cancelAfter=%s traced=%v", ver, workers, data, tdesc, cancelAfter, traced))
+	defer pending("")
 	finished := make(chan struct{})
+	panicked := false
 	go func() {
 		defer close(finished)
+		defer func() {
+			if e := recover(); e != nil {
+				panicked = true
+			}
+		}()
 		if ver == "v1" {
 			nonce, err = pow.New(workers).Mine(ctx, data, target)
+		} else if ver == "v2exact" {
+			nonce, err = powv2.New(workers).Mine(ctx, data, v2Target)
 		} else {
 			nonce, err = powv2.New(workers).Mine(ctx, data, uint64(target))
 		}
@@ -172,6 +195,8 @@ func tracedMine(ver string, workers int, data []byte, target float64, cancelAfte
 		trace = strings.Join(evs, ",")
 	}
 	switch {
+	case panicked:
+		result = "panic"
 	case err == nil:
 		result = fmt.Sprintf("%d", nonce)
 	case err == pow.ErrCancelled || err == powv2.ErrCancelled:
@@ -197,6 +222,8 @@ func mineRuntime(result string, leaked int, elapsed time.Duration, cancels bool)
 	switch {
 	case strings.HasPrefix(result, "HANG"):
 		return result
+	case result == "panic" && leaked == 0:
+		return "ok" // whether the panic is the documented one is judged by the trace op
 	case leaked > 0:
 		return fmt.Sprintf("goroutines-leaked:%d", leaked)
 	case elapsed > 2*time.Second:
@@ -234,6 +261,31 @@ func genC13(g *G) {
 			scens = append(scens, scen{ver, w, 1e15, time.Duration(1+g.r.intn(5)) * time.Millisecond})
 			// cancellation racing with a find
 			scens = append(scens, scen{ver, w, 100, time.Duration(g.r.intn(3000)) * time.Microsecond})
+		}
+	}
+	// calls that never enter the protocol: a target no hash can reach (v1: waits for cancellation), the zero target and
+	// a target whose product with the length overflows (v2: trivial result / documented panic, nothing started)
+	for _, w := range ws {
+		for _, t := range []float64{1e300, math.Inf(1), math.NaN(), math.Nextafter(math.Pow(3, 243)/8, math.Inf(1))} {
+			for _, cancel := range []time.Duration{0, time.Duration(1+g.r.intn(3)) * time.Millisecond} {
+				trace, result, leaked, elapsed := tracedMine("v1", w, nil, t, cancel, true)
+				g.emit("mine.trace", itoa(w), trace, result, "unattainable")
+				g.emit("mine.runtime", mineRuntime(result, leaked, elapsed, true))
+			}
+		}
+		trace, result, leaked, elapsed := tracedMineV2(w, g.r.bytes(g.r.intn(10)), 0, -1)
+		g.emit("mine.trace", itoa(w), trace, result, "zero")
+		g.emit("mine.runtime", mineRuntime(result, leaked, elapsed, false))
+		for _, dl := range []int{0, 3, 8} {
+			L := uint64(dl + 8)
+			for _, t := range []uint64{math.MaxUint64, math.MaxUint64/L + 1, (math.MaxUint64-1)/L + 1} {
+				if t <= math.MaxUint64/L {
+					continue // the product fits: a real mining call
+				}
+				trace, result, leaked, elapsed := tracedMineV2(w, make([]byte, dl), t, -1)
+				g.emit("mine.trace", itoa(w), trace, result, "invalid")
+				g.emit("mine.runtime", mineRuntime(result, leaked, elapsed, false))
+			}
 		}
 	}
 	reps := 1
